@@ -1,72 +1,7 @@
-use vh::report::{Ctx, Tier};
-
 // same allocator as the shipped binaries (emmylua_ls, emmylua_check, luafmt)
 #[global_allocator]
 static GLOBAL: mimalloc::MiMalloc = mimalloc::MiMalloc;
 
-fn usage() -> ! {
-    eprintln!("usage: vcheck <PROP> [--seed N] [--shard I] [--nshards N] [--tier quick|thorough] [--out FILE] [--replay FILE] [--max-secs S] [--scale F] [--stack BYTES]");
-    std::process::exit(2)
-}
-
 fn main() {
-    let args: Vec<String> = std::env::args().collect();
-    if args.len() < 2 {
-        usage();
-    }
-    let mut ctx = Ctx::new(&args[1]);
-    let mut stack: usize = 64 << 20;
-    let mut i = 2;
-    while i < args.len() {
-        let a = args[i].as_str();
-        let v = args.get(i + 1).cloned();
-        let need = || v.clone().unwrap_or_else(|| usage());
-        match a {
-            "--seed" => ctx.seed = need().parse().unwrap_or_else(|_| usage()),
-            "--shard" => ctx.shard = need().parse().unwrap_or_else(|_| usage()),
-            "--nshards" => ctx.nshards = need().parse().unwrap_or_else(|_| usage()),
-            "--tier" => ctx.tier = if need() == "thorough" { Tier::Thorough } else { Tier::Quick },
-            "--out" => ctx.out = Some(need()),
-            "--max-secs" => ctx.max_secs = need().parse().unwrap_or_else(|_| usage()),
-            "--scale" => ctx.scale = need().parse().unwrap_or_else(|_| usage()),
-            "--stack" => stack = need().parse().unwrap_or_else(|_| usage()),
-            "--replay" => {
-                let s = std::fs::read_to_string(need()).unwrap_or_else(|e| {
-                    eprintln!("cannot read replay file: {e}");
-                    std::process::exit(2)
-                });
-                let v: serde_json::Value = serde_json::from_str(&s).unwrap_or_else(|e| {
-                    eprintln!("bad replay file: {e}");
-                    std::process::exit(2)
-                });
-                // replay files written by the driver wrap the case under "replay"
-                ctx.replay = Some(if v.get("replay").is_some() { v["replay"].clone() } else { v });
-            }
-            _ => usage(),
-        }
-        i += 2;
-    }
-    let _ = std::fs::create_dir_all(&ctx.work);
-    vh::util::install_panic_hook();
-    // Run on a big stack by default: properties that care about stack depth use their own threads.
-    let h = std::thread::Builder::new()
-        .stack_size(stack)
-        .spawn(move || {
-            let known = vh::props::run(&mut ctx);
-            if !known {
-                eprintln!("unknown property {}", ctx.property);
-                std::process::exit(2);
-            }
-            ctx.finish();
-            ctx.sig_counts.is_empty()
-        })
-        .expect("spawn main worker");
-    match h.join() {
-        Ok(true) => std::process::exit(0),
-        Ok(false) => std::process::exit(1),
-        Err(_) => {
-            eprintln!("harness worker panicked outside a guarded region");
-            std::process::exit(3)
-        }
-    }
+    vh::cli::main()
 }
